@@ -16,6 +16,10 @@ CLAIMED = {
    text="Kernel-checked theorems over exact rationals for ALL wire counts, maxima, photon numbers, tree depths, detector lists and input distributions: the recurrence of Detector._cond_probability equals C(w,k)·S(n,k)·k!/w^n (Stirling numbers by their recurrence) and sums to 1; Detector.detect keeps every reading below the maximum, folds every outcome at or above it into the maximum, reads nothing above it and has mass 1 (threshold reads min(n,1), PNR reads n); the beam-splitter tree with reflectivity 1/2 has the click law of 2^L equally likely wires, and for every reflectivity its law has mass 1 (binomial theorem); simulate_detectors is the product of the per-mode kernels, preserves total probability before filtering, reports the un-normalised kept mass as physical performance and returns a mass-1 distribution of states that pass the filter — for every detector list that is not all-PNR; for all-PNR lists the function returns its input before looking at the filter (refuted witness proved in Coq and replayed on /repo, recorded as an open finding). The hand-written model is tied to /repo on every run: exhaustive grid w<=8 x every maximum x n<=10 for Detector.detect/_cond_probability (also against an independent evaluation of the closed form), BS trees L<=3 x 6 reflectivities (leaf intensities of create_circuit and click law), random detector lists for get_detection_type/check_heralds_detectors, random mixtures x random input distributions x every filter value for simulate_detectors, and Processor.probs() with detectors.",
    note="All 20 theorems closed under the global context. The SLOS computation inside BSLayeredPPNR.detect is not modelled (C02): the tree is modelled by its leaf intensities and the multinomial law, tied by the exhaustive tree stream.",
    tech="Coq proof by induction (click-law recurrence, Stirling/binomial identities, list induction for the product kernel) + extracted-model differential correspondence"),
+ "C15": dict(cat="proof", ref="DESIGN.md §7 C15",
+   text="Kernel-checked theorems about a field-level Gallina model of perceval/serialization (every hand-written serialise/deserialise pair with its sentinels: VALUE_NOT_SET, `or None`, `if x:` tests, default names, the known_params name table incl. `params or dict()`): for every well-formed value of every supported type, lists/dicts of them to any depth and every compress setting, decode(encode v) succeeds and equals the expected image of v (roundtrip_value, by nested structural induction; circuits to any nesting depth with parameter identities through the name table; experiments field by field incl. non-zero filter, heralds, ports, detectors, noise, post-selection, input); text numbers land within 0.5e-6 of the original (simple_float model); BSSamples index table, matrices, noise, detectors, ports exact. Eleven `_refuted` witnesses (vm_compute) show where the faithful model of the current code loses information; each replays on /repo and is an open finding. The model is tied to /repo on every run: the protobuf/text form is dumped field by field and compared with the model's wire form, the deserialised object with the model's decoded value, and the round trip with the original under the statement's equivalence, over generated values of every type, compress default/True/False/tag-list, binary and file entry points.",
+   note="All theorems closed under the global context. protobuf, zlib, base64, json and the native state/post-selection parsers are outside the model (exercised by the correspondence stream). Feed-forward configurators are not modelled.",
+   tech="Coq proof (structural induction over the value AST) + extracted-model differential correspondence"),
  "C01": dict(cat="proof", ref="DESIGN.md §7 C01",
    text="Kernel-checked theorems over any commutative ring, any nesting depth, offsets and mode count: the circuit matrix equals the ordered product of the leaves' matrices embedded at their absolute ranges (cmat_flatten), is unitary when the leaves are, merge = nest, barriers are neutral, add rejects exactly misfitting ranges. The model's construction semantics (add/merge/nest, //, @, barrier, copy) is tied to /repo by running random straight-line programs over named circuit variables on both sides and comparing every variable's matrix and component listing after every statement.",
    note="All theorems closed under the global context.",
